@@ -465,10 +465,6 @@ fn doc_tok_atoms(d: &Delims, n: &Names) -> Vec<String> {
         gen::close_tag(d, &n.rm),
         d.ds.to_string(),
         d.de.to_string(),
-        // a tab is not a separator inside a tag: these are tags with unregistered names
-        // (`tl<TAB>to`, `/tl<TAB>`), whatever stands around them
-        format!("{}{}\tto=\"{}\"{}", d.ds, n.tl, crate::harness::TO_EXPIRED, d.de),
-        format!("{}/{}\t{}", d.ds, n.tl, d.de),
     ] {
         if !v.contains(&s) {
             v.push(s);
